@@ -84,14 +84,31 @@ pub assume_specification [<Regions as Default>::default] () -> (r: Regions)
             &&& (target_size is Some ==> size == target_size->0)
             &&& placement_exists(regions@, out, reg)
         })""", L),
+            ("""res is Ok && res->Ok_0 is Some ==> vftable_of_first_base(&final(semantic).type_registry, *resolvee_path, regions@, vftable_functions,
+                    (res->Ok_0->0).1, (res->Ok_0->0).0@)""", ("C06",), "vftable-of-first-base"),
+            ("final(semantic).modules@.dom() == old(semantic).modules@.dom()", ("C12", "C10"), "keeps-modules"),
+            ("registry_frame(&old(semantic).type_registry, &final(semantic).type_registry, *resolvee_path)", ("C10", "C19"), "attempt-frame"),
         ])
+    # first base: `regions.iter().map(|t| &t.1).find(|r| r.is_base)`
+    fnd = fw.method_calls(fn, "find")
+    if len(fnd) != 1:
+        raise rules.WeaveError("resolve_regions: expected one .find(..) call")
+    rules.map_find(fw, fn, fnd[0], "Seq::new(regions@.len(), |i: int| regions@[i].1)", "base_marks(regions@)")
+    closure_annot(ctx, fw, u, rules.closure_of_call(fw, fn, "map"), params=["t: &(Option<usize>, Region)"], ret="o: &Region", ensures=["*o == t.1"], tags=("C06",))
+    closure_annot(ctx, fw, u, rules.closure_of_call(fw, fn, "find"), params=["r: &&Region"], ret="b: bool", ensures=["b == r.is_base"], tags=("C06",))
+    ghost(ctx, fw, u, after(fw, fw.top_let(fn, "first_base")),
+          "assert(first_base_of(regions@) == (match first_base { Some(r) => Some(*r), None => None::<Region> }));", tags=("C06",), kind="assert")
     l1 = fw.loop(fn, 1)
     l2 = fw.loop(fn, 2)
+    ghost(ctx, fw, u, after(fw, fw.top_let(fn, "vftable")), """let ghost vr0 = vftable_region; let ghost vft0 = vftable;""")
     ghost(ctx, fw, u, after(fw, fw.top_let(fn, "vftable")), """proof { lemma_sum_empty(&semantic.type_registry); assert(resolved.regions@ =~= Seq::<Region>::empty()); }""")
     ghost(ctx, fw, u, before(fw, l1), """let ghost mut pos: Seq<int> = Seq::empty();
     let ghost init_acc = (resolved.regions@, resolved.last_address as nat);""")
     loop_spec(ctx, fw, u, l1, label="it", tags=L, invariants=[
         "reg_wf(&semantic.type_registry)",
+        ("vr0 is Some ==> resolved.regions@.len() > 0 && resolved.regions@[0] == vr0->0", ("C06",)),
+        ("semantic.modules@.dom() == old(semantic).modules@.dom()", ("C10",)),
+        ("registry_frame(&old(semantic).type_registry, &semantic.type_registry, *resolvee_path)", ("C10", "C19")),
         "resolved.last_address == sum_sizes(resolved.regions@, &semantic.type_registry)",
         "all_sized(resolved.regions@, &semantic.type_registry)",
         "pos.len() == it.index()",
@@ -130,6 +147,9 @@ pub assume_specification [<Regions as Default>::default] () -> (r: Regions)
     rules.for_mut_to_iter_mut(fw, l2)
     loop_spec(ctx, fw, u, l2, label="it2", tags=L, invariants=[
         "reg == &semantic.type_registry",
+        ("vr0 is Some ==> pre.len() > 0 && pre[0] == vr0->0", ("C06",)),
+        ("semantic.modules@.dom() == old(semantic).modules@.dom()", ("C10",)),
+        ("registry_frame(&old(semantic).type_registry, &semantic.type_registry, *resolvee_path)", ("C10", "C19")),
         "all_sized(pre, reg)",
         "resolved.last_address == sum_sizes(pre, reg)",
         "it2.seq().len() == pre.len()",
@@ -158,10 +178,8 @@ pub assume_specification [<Regions as Default>::default] () -> (r: Regions)
             }
         }
         assert(placement_exists(regions@, resolved.regions@, &semantic.type_registry));
+        assert(vftable_result_ok(reg, *resolvee_path, first_base_of(regions@), vftable_functions, (vft0, vr0)));
+        assert(vr0 is Some ==> out[0] == vr0->0);
+        assert(vftable_of_first_base(reg, *resolvee_path, regions@, vftable_functions, vft0, out));
     }""")
 
-    # callee of resolve_regions, trusted for now
-    vf = W.file("semantic/type_definition/vftable.rs")
-    fn_into_verus(ctx, vf, "build", mode="T", ret="res", tags=U,
-        requires=["reg_wf(&old(semantic).type_registry)"],
-        ensures=["reg_wf(&final(semantic).type_registry)"])
